@@ -56,6 +56,24 @@ Definition byref_lhs (c : case) : bool := (c_form c =? 2) || (c_form c =? 3).
 Definition flatten_pairs (l : list (N * N)) : list N :=
   flat_map (fun p => [fst p; snd p]) l.
 
+(* std's `io::Write::write_all` driving a sink that accepts at most `chunk` bytes per `write()` call and
+   `cap` bytes in all, after which `write()` returns Ok(0) (a full `&mut [u8]`, a `Cursor` over a fixed slice,
+   a quota-limited writer): each round hands the sink what is left of the buffer, `Ok(0)` ends the loop with
+   `ErrorKind::WriteZero`.  Returns what the sink holds and the status 0 = Ok(()), 1 = Err (2: out of fuel;
+   one unit of fuel per byte and one more suffice because every round but the failing one takes a byte). *)
+Fixpoint write_all_sink (fuel : nat) (chunk cap : N) (buf acc : list N) : list N * N :=
+  match fuel with
+  | O => (acc, 2)
+  | S f =>
+      match buf with
+      | [] => (acc, 0)
+      | _ :: _ =>
+          let n := N.min (N.min chunk cap) (lenw buf) in
+          if n =? 0 then (acc, 1)
+          else write_all_sink f chunk (cap - n) (skipn (N.to_nat n) buf) (acc ++ firstn (N.to_nat n) buf)
+      end
+  end.
+
 Definition run_case (c : case) : result :=
   let P := c_prof c in
   let k := c_kind c in
@@ -102,6 +120,11 @@ Definition run_case (c : case) : result :=
           let! ha := x_hash P a in let! hb := x_hash P b in
           Ok [IN (b2n (x_eq a b)); IL (flatten_pairs ha); IL (flatten_pairs hb)]
   (* ---- edits *)
+  (* write(&mut sink, e) into a bounded sink: args [endianness; total capacity in bytes; bytes per write() call] *)
+  | 38 => let! x := val c 0 in
+          let! bytes := x_to_vec x (endian_of (arg c 0)) in
+          let '(out, st) := write_all_sink (S (length bytes)) (arg c 2) (arg c 1) bytes [] in
+          Ok [IL out; IN st]
   | 40 => let! x := val c 0 in ret_v (x_set P x (arg c 0) (arg c 1))
   | 41 => let! x := val c 0 in ret_v (x_push P x (arg c 0))
   | 42 => let! x := val c 0 in let! (y, o) := x_pop P x in Ok [IV y; IN (opt2n o)]
